@@ -413,6 +413,19 @@ impl Keyword {
     }
 }
 
+#[cfg(feature = "verif")]
+impl Keyword {
+    /// Verification hook: the keyword text and its kind (0 = exact, 1 = wildcard, 2 = regex).
+    pub fn verif_parts(&self) -> (&str, u8) {
+        let kind = match self.1 {
+            KeywordType::Exact => 0,
+            KeywordType::Wildcard => 1,
+            KeywordType::Regex => 2,
+        };
+        (self.0.as_str(), kind)
+    }
+}
+
 #[derive(Debug, PartialEq, Clone)]
 pub enum Search {
     And(Vec<Search>),
